@@ -493,7 +493,9 @@ func runStop(c *StopCase) *StopObs {
 		// the first Error() call comes IMMEDIATELY after Stream returned, as a caller would do it
 		callError(st)
 		// the connection must be closed by the library within the bound (when the master did not close it first)
-		if _, seen := st.dump(); seen || f.Kind == "err_query" || f.Kind == "dump_unsendable" {
+		// (a session that never sent a command ended inside the driver's connect phase - e.g. a deadline that
+		// expired there; what is left behind then is judged by the goroutine check with its connect-phase signature)
+		if _, seen := st.dump(); seen || ((f.Kind == "err_query" || f.Kind == "dump_unsendable") && len(plan.Cmds()) > 0) {
 			select {
 			case <-plan.PeerClosed:
 				obs.PeerClosed = true
